@@ -77,6 +77,12 @@ func init() {
 				}
 			}
 			for _, hn := range []string{"sha256", "md5"} {
+				if hn == "sha256" {
+					// WHICH file is checked: relative command paths with cmd.Dir, symbolic links, ".."
+					for _, lay := range c13Layouts {
+						out = append(out, sp("C13", "layout/"+lay, seed, P("hash", hn, "layout", lay)))
+					}
+				}
 				for _, sc := range []string{"shared-unchanged", "shared-rewritten", "shared-rewritten-keepmtime", "shared-checksum-changed"} {
 					out = append(out, sp("C13", fmt.Sprintf("shared/%s/%s", hn, sc), seed, P("hash", hn, "sum", "exact", "size", "3000", "shared", sc)))
 				}
@@ -116,7 +122,100 @@ func init() {
 	})
 }
 
+var c13Layouts = []string{"reldir-evil-in-dir", "reldir-trusted-in-dir", "symlink-dotdot-evil", "symlink-dotdot-trusted", "abs-symlink-dotdot-evil", "symlink-to-trusted", "symlink-to-evil", "rel-no-dir"}
+
+// runC13Layout: the file that is checked must be the file that is run. The
+// reference is the kernel's own resolution of the command path.
+func runC13Layout(r *h.Run) {
+	w := r.W
+	lay := r.Spec.P("layout", "")
+	ctx := "layout=" + lay
+	r.Host.Cwd = "/hostcwd"
+	for _, d := range []string{"/hostcwd", "/opt", "/opt/app", "/opt/app/store", "/opt/app/store/v2"} {
+		w.Mkdir(d)
+	}
+	install := func(path, kind string) {
+		// two different non-plugins: whichever runs fails the handshake, what
+		// counts is which one the kernel is asked to run
+		r.InstallScript(path, &h.Script{Steps: []h.ScriptStep{h.Out("I am the " + kind + " binary at " + path + "\n")}})
+		if n := w.NodeAt(path); n != nil {
+			n.Data = []byte("#!" + kind + " contents")
+		}
+	}
+	trustedData := []byte("#!trusted contents")
+	path, dir := "", ""
+	switch lay {
+	case "reldir-evil-in-dir":
+		install("/hostcwd/plug", "trusted")
+		install("/opt/app/plug", "evil")
+		path, dir = "./plug", "/opt/app"
+	case "reldir-trusted-in-dir":
+		install("/hostcwd/plug", "evil")
+		install("/opt/app/plug", "trusted")
+		path, dir = "./plug", "/opt/app"
+	case "rel-no-dir":
+		install("/hostcwd/plug", "trusted")
+		path = "./plug"
+	case "symlink-dotdot-evil", "symlink-dotdot-trusted", "abs-symlink-dotdot-evil":
+		w.Symlink("/opt/app/store/v2", "/opt/app/current")
+		lexical, physical := "trusted", "evil"
+		if lay == "symlink-dotdot-trusted" {
+			lexical, physical = "evil", "trusted"
+		}
+		install("/opt/app/plug", lexical)
+		install("/opt/app/store/plug", physical)
+		path, dir = "current/../plug", "/opt/app"
+		if lay == "abs-symlink-dotdot-evil" {
+			path, dir = "/opt/app/current/../plug", ""
+		}
+	case "symlink-to-trusted", "symlink-to-evil":
+		install("/opt/app/real-trusted", "trusted")
+		install("/opt/app/real-evil", "evil")
+		w.Symlink("/opt/app/real-"+strings.TrimPrefix(lay, "symlink-to-"), "/opt/app/link")
+		path = "/opt/app/link"
+	}
+	sum := sha256.Sum256(trustedData)
+	c := h.Conf{Proto: "netrpc", Path: path, Name: "plugin", Timeout: 3 * time.Second}
+	cfg := r.ClientConfig(c)
+	cfg.Cmd = simexec.Command(path)
+	cfg.Cmd.Dir = dir
+	cfg.Cmd.SimName = "plugin"
+	cfg.SecureConfig = &plugin.SecureConfig{Checksum: sum[:], Hash: sha256.New()}
+	cl := plugin.NewClient(cfg)
+	// reference: what the kernel will run
+	cwd := dir
+	if cwd == "" {
+		cwd = r.Host.Cwd
+	}
+	target := w.Phys(cwd, path)
+	tn := w.NodeAt(target)
+	wantLaunch := tn != nil && string(tn.Data) == string(trustedData)
+	o := r.DoNoHang("Start", 60*time.Second, ctx, func() (any, error) { return cl.Start() })
+	if o.Hung {
+		return
+	}
+	p := w.ProcByName("plugin")
+	switch {
+	case p != nil && !wantLaunch:
+		r.Violate("ran-unverified-binary", ctx, fmt.Sprintf("the kernel ran %s, whose contents do not have the configured checksum (Start: %v)", p.Path, o.Err))
+	case p == nil && wantLaunch:
+		r.Violate("refused-verified-binary", ctx, fmt.Sprintf("the file the kernel would run (%s) has the configured checksum, but nothing was launched: %v", target, o.Err))
+	case p != nil && p.Path != target:
+		r.Violate("setup", ctx+" resolution", fmt.Sprintf("ran %s, reference says %s", p.Path, target))
+	}
+	if wantLaunch {
+		w.Probe("expect.launch")
+	} else {
+		w.Probe("expect.refuse")
+	}
+	r.DoNoHang("Kill", 120*time.Second, ctx, func() (any, error) { cl.Kill(); return nil, nil })
+}
+
 func runC13(r *h.Run) {
+	if r.Spec.P("layout", "") != "" {
+		runC13Layout(r)
+		return
+	}
 	w := r.W
 	hn, sumMode, fsf := r.Spec.P("hash", "sha256"), r.Spec.P("sum", "exact"), r.Spec.P("fsfault", "")
 	size := r.Spec.PI("size", 100)
